@@ -1,0 +1,73 @@
+//go:build verif
+
+package s2
+
+// Thin accessors for the verification harness (property C07: loop and polygon relations
+// obey point-set semantics). Add-only; no behaviour of the package changes.
+
+// VerifC07LoopBounds returns the loop's cached bound and subregion bound.
+func VerifC07LoopBounds(l *Loop) (bound, subregion Rect) { return l.bound, l.subregionBound }
+
+// VerifC07PolygonBounds returns the polygon's cached bound and subregion bound.
+func VerifC07PolygonBounds(p *Polygon) (bound, subregion Rect) { return p.bound, p.subregionBound }
+
+// VerifC07PolygonHasHoles returns the polygon's hasHoles flag.
+func VerifC07PolygonHasHoles(p *Polygon) bool { return p.hasHoles }
+
+// VerifC07LoopDepth returns the loop's nesting depth.
+func VerifC07LoopDepth(l *Loop) int { return l.depth }
+
+// VerifC07CompareBoundary runs a.compareBoundary(b) with b treated as a hole or a shell
+// (b's depth is restored afterwards).
+func VerifC07CompareBoundary(a, b *Loop, bIsHole bool) int {
+	old := b.depth
+	if bIsHole {
+		b.depth = 1
+	} else {
+		b.depth = 0
+	}
+	r := a.compareBoundary(b)
+	b.depth = old
+	return r
+}
+
+// VerifC07ContainsNonCrossingBoundary runs a.containsNonCrossingBoundary(b, reverseB).
+func VerifC07ContainsNonCrossingBoundary(a, b *Loop, reverseB bool) bool {
+	return a.containsNonCrossingBoundary(b, reverseB)
+}
+
+// VerifC07WedgeContainsSemiwedge exposes wedgeContainsSemiwedge.
+func VerifC07WedgeContainsSemiwedge(a0, ab1, a2, b2 Point, reverse bool) bool {
+	return wedgeContainsSemiwedge(a0, ab1, a2, b2, reverse)
+}
+
+// VerifC07HasCrossingRelation runs hasCrossingRelation(a, b, rel) for rel = 0 (contains),
+// 1 (intersects), 2 (compareBoundary, reverse=false), 3 (compareBoundary, reverse=true) and
+// returns its result together with the relation's foundSharedVertex flag.
+func VerifC07HasCrossingRelation(a, b *Loop, rel int) (crossing, foundShared bool) {
+	switch rel {
+	case 0:
+		r := &containsRelation{}
+		c := hasCrossingRelation(a, b, r)
+		return c, r.foundSharedVertex
+	case 1:
+		r := &intersectsRelation{}
+		c := hasCrossingRelation(a, b, r)
+		return c, r.foundSharedVertex
+	default:
+		r := newCompareBoundaryRelation(rel == 3)
+		c := hasCrossingRelation(a, b, r)
+		return c, r.foundSharedVertex
+	}
+}
+
+// VerifC07PolygonCompareBoundary runs p.compareBoundary(b).
+func VerifC07PolygonCompareBoundary(p *Polygon, b *Loop) int { return p.compareBoundary(b) }
+
+// VerifC07SpecialPoints returns emptyLoopPoint and fullLoopPoint.
+func VerifC07SpecialPoints() (empty, full Point) { return emptyLoopPoint, fullLoopPoint }
+
+// VerifC07Clipped returns containsCenter and the number of edges of the first clipped shape of an index cell.
+func VerifC07Clipped(c *ShapeIndexCell) (containsCenter bool, numEdges int) {
+	return c.shapes[0].containsCenter, c.shapes[0].numEdges()
+}
